@@ -1179,13 +1179,18 @@ class Definition(Macro):
             # Beginning a new parameter
             if a.catcode == Token.CC_PARAMETER:
 
-                # Adjacent parameters, just get the next token
-                if inparam:
-                    params.append(tex.readArgument(parentNode=self,
-                                                   name='#%s' % len(params)))
-
                 # Get the parameter number
                 for a in argIter:
+                    # Handle #{ case here
+                    if a.catcode == Token.CC_BGROUP:
+                        break
+
+                    # Adjacent parameters, just get the next token
+                    if inparam:
+                        params.append(tex.readArgument(parentNode=self,
+                                                   name='#%s' % len(params)))
+                        inparam = False
+
                     # Numbered parameter
                     if a in string.digits:
                         inparam = True
@@ -1193,20 +1198,25 @@ class Definition(Macro):
                     elif a.catcode == Token.CC_PARAMETER:
                         continue
 
-                    # Handle #{ case here
-                    elif a.catcode == Token.CC_BGROUP:
+                    else:
+                        raise ValueError('Invalid arg string: %s' % ''.join(self.args))
+                    break
+
+                # The parameter text ends with a lone `#' (the #{ case): the
+                # last parameter is everything up to the next left brace,
+                # and the brace itself stays in the input
+                else:
+                    a = None
+                if a is None or a.catcode == Token.CC_BGROUP:
+                    if inparam:
                         param = []
                         for t in tex.itertokens():
                             if t.catcode == Token.CC_BGROUP:
                                 tex.pushToken(t)
-                            else:
-                                param.append(t)
+                                break
+                            param.append(t)
                         inparam = False
                         params.append(param)
-
-                    else:
-                        raise ValueError('Invalid arg string: %s' % ''.join(self.args))
-                    break
 
             # In a parameter, so get everything up to a token that matches `a`
             elif inparam:
